@@ -1071,6 +1071,12 @@ def run(ck, repo: Repo, tier: str):
         ps = param_names(fn)
         ck.need(len(ps) >= 4, f"{q}: signature changed (anchor vanished)")
         CONFIG, STATE, OPT = ps[0], ps[1], ps[2]
+        # `x = a if c else b` is read as the two paths it stands for (the initial plan may be chosen by a conditional expression)
+        from ..sem import split_conditional_assignments
+        if any(isinstance(x, ast.IfExp) for x in ast.walk(fn)):
+            fn = split_conditional_assignments(fn)
+            fn._module = mi
+            ck._keep = getattr(ck, "_keep", []) + [fn]
         cfgm = nf.cfg_of(fn)
         retn = _value_returns(cfgm)
         if len(retn) != 1:
